@@ -52,13 +52,13 @@ Qed.
    stats, lists or opens is inside the data directory.  (The data directory exists and its own name
    does not end with "catalog.xml".) *)
 Theorem confined exts fs root path_info :
-  isdir fs root = true -> suffixb catalog_xml (last root []) = false ->
+  isdir fs root = true -> chars_eqb (last root []) catalog_xml = false ->
   Forall (inside root) (snd (route exts fs root path_info)).
 Proof.
   intros Hroot Hname. unfold route. set (p := resolve root path_info).
   destruct (is_prefix root p) eqn:Hp; cbn [negb]; [|constructor].
   destruct (is_prefix_inv root p Hp) as (q & Eq). rewrite Eq in *. clearbody p. clear Hp p Eq.
-  destruct (suffixb catalog_xml (last (root ++ q) [])) eqn:Hc.
+  destruct (chars_eqb (last (root ++ q) []) catalog_xml) eqn:Hc.
   - (* catalog.xml : the listed directory is the parent, still inside *)
     assert (Hq : q <> []) by (intros ->; rewrite app_nil_r in Hc; congruence).
     rewrite removelast_app by assumption.
@@ -88,7 +88,7 @@ Theorem refusal_discloses_nothing exts fs root path_info :
 Proof.
   unfold route. set (p := resolve root path_info).
   destruct (negb (is_prefix root p)); cbn [fst snd]; [constructor|].
-  destruct (suffixb catalog_xml (last p [])).
+  destruct (chars_eqb (last p []) catalog_xml).
   - destruct (isdir fs (removelast p)); cbn [fst snd]; [exact I|repeat constructor].
   - destruct (exists_ fs p).
     + destruct (isdir fs p); cbn [fst snd]; exact I.
@@ -99,7 +99,7 @@ Qed.
 (* Routing by what is on disk (for paths that stay inside and do not end in catalog.xml). *)
 Theorem routing_table exts fs root path_info :
   let p := resolve root path_info in
-  is_prefix root p = true -> suffixb catalog_xml (last p []) = false ->
+  is_prefix root p = true -> chars_eqb (last p []) catalog_xml = false ->
   (isfile fs p = true -> fst (route exts fs root path_info) = FileVerbatim p) /\
   (isdir fs p = true -> fst (route exts fs root path_info) = Listing p (listdir fs p)) /\
   (exists_ fs p = false ->
